@@ -15,6 +15,7 @@ TINY = {
     "T11": (11, 8, 1, 0, 1, 17, 1),      # a = p - 3, p = 3 mod 4, n > p
     "T13": (13, 0, 7, 7, 5, 7, 1),       # a = 0, p = 5 mod 8, n < p (x mod n matters)
     "T23": (23, 20, 15, 1, 6, 17, 1),    # a = p - 3, n < p
+    "TH4": (19, 1, 17, 6, 7, 7, 4),      # cofactor 4, cyclic of order 28: points of order 4, 4n, 2n, 2 outside <G> (n*P of an order-4n point has y != 0)
     "T17L": (17, 2, 15, 0, 7, 19, 1),    # look-alike of T17: same p and a, other b (invalid-curve set-up); used as the FOREIGN curve only
     "T11L": (11, 8, 10, 2, 1, 7, 1),     # look-alike of T11
     "T13r": (13, 7, 6, 1, 1, 11, 1),     # n < p and x = n-1, x = 1 are abscissas of points: ECDSA r = n-1 and r = 1 occur (C18)
